@@ -77,7 +77,8 @@ Value& INTExpression::value(Context & ctx) const
     case Type::NUMERIC:
     {
       Numeric d = *val.numeric();
-      if (d < Numeric(INT64_MIN) || d > Numeric(INT64_MAX))
+      /* INT64_MAX converts to 2^63 which is already out of range; nan never compares */
+      if (!(d >= Numeric(INT64_MIN) && d < Numeric(INT64_MAX)))
         throw RuntimeError(EXC_RT_OUT_OF_RANGE);
       v = Value(Integer(d));
       break;
@@ -88,7 +89,7 @@ Value& INTExpression::value(Context & ctx) const
     case Type::IMAGINARY:
     {
       Numeric d = val.imaginary()->a;
-      if (d < Numeric(INT64_MIN) || d > Numeric(INT64_MAX))
+      if (!(d >= Numeric(INT64_MIN) && d < Numeric(INT64_MAX)))
         throw RuntimeError(EXC_RT_OUT_OF_RANGE);
       v = Value(Integer(d));
       break;
